@@ -41,7 +41,9 @@ def pyclass(v):
     if isinstance(v, (int, np.integer)):
         return "int"
     if isinstance(v, (float, np.floating)):
-        return "nan" if (v != v or v in (float("inf"), float("-inf"))) else "float"   # JSON has no spelling for any non-finite number
+        if v in (float("inf"), float("-inf")):
+            return "inf"            # JSON has no number for it; the statement fixes only NaN -> null (and strict parsing)
+        return "nan" if v != v else "float"
     return "str"
 
 
@@ -154,7 +156,8 @@ def json_event(name, las):
             seen.add(it.mnemonic)
             j = md.get(secname, {}).get(it.mnemonic, "<missing>")
             ev["items"].append({"py": pyclass(it.value), "json": jsonclass(j), "key": secname + "." + it.mnemonic,
-                                "eq": (j is None) if pyclass(it.value) in ("nan", "none") else same(it.value, j)})
+                                "eq": (j is None) if pyclass(it.value) in ("nan", "none") else
+                                      (True if pyclass(it.value) == "inf" else same(it.value, j))})
     ok = set(doc.get("data", {})) == set(c.mnemonic for c in las.curves)
     for c in las.curves:
         col = doc.get("data", {}).get(c.mnemonic)
@@ -162,7 +165,9 @@ def json_event(name, las):
             ok = False
             continue
         for x, y in zip(c.data, col):
-            if isinstance(x, (float, np.floating)) and (x != x or abs(x) == float("inf")):
+            if isinstance(x, (float, np.floating)) and abs(x) == float("inf"):
+                continue            # only strict parsing is demanded of an infinite sample
+            if isinstance(x, (float, np.floating)) and x != x:
                 ok = ok and y is None
             else:
                 ok = ok and y is not None and same(x, y)
